@@ -21,6 +21,11 @@ CHECKS = {
    "DESIGN.md section 4 / C03",
    "Messages shorter than 24 bytes are matched by content only; packet attribution uses the crate's decoder.",
    "runtime monitoring: self-describing payloads + per-packet delivery accounting"),
+ "C13": ("exploration",
+   "Sender stress with hook-seeded counter magnitudes and crafted incoming sequence patterns (1..>64 ack ranges, wide gaps), full simulated sessions including descending-arrival schedules, and netcode datagram size measurement for all packet kinds and sequence magnitudes; every produced packet is measured.",
+   "DESIGN.md section 4 / C13",
+   "Counter magnitudes are reached through the seeding hook; netcode sequence magnitudes through the crate's encoder.",
+   "runtime monitoring: size / serialization assertion on every produced datagram under boundary-seeded state"),
 }
 
 NOT_YET = {}
